@@ -267,6 +267,16 @@ func Run(s *simrt.Sim, a *harness.Args, r *harness.Result) {
 	w.tgt = &actors.ScriptedTarget{Label: "down", Partial: sc.Partial, Prop: a.Prop}
 	w.tgt.PlanFor = w.planFor
 	w.sink = &actors.ScriptedTarget{Label: "bounce", Prop: a.Prop}
+	// the bounce pipeline records a recipient rewrite in the metadata of the
+	// report it is handed (what a real pipeline with an alias table does): the
+	// report's metadata is the report's own - nothing of it may show up in the
+	// envelope of the message the report is about
+	w.sink.OnStart = func(m *module.MsgMetadata) {
+		if m.OriginalRcpts == nil {
+			m.OriginalRcpts = map[string]string{}
+		}
+		m.OriginalRcpts["postmaster-mbox@bounce.example"] = "postmaster-alias@bounce.example"
+	}
 	w.sink.PlanFor = w.sinkPlanFor
 	simfs.CanonName = nil
 	if a.Prop == "C01" && s.T.Choose("scen", 4) == 0 {
